@@ -303,59 +303,86 @@ func execStream(c *vlib.Ctx, sc streamCase) {
 }
 
 // ---------------------------------------------------------------------------
-// Schedules: a write blocked inside the downstream writer while another
-// goroutine calls Shut (valve) or Write (valve, concurrent writer). The
-// recorded event order is judged by StreamWriters_Trace.tla.
+// Schedules. One Write is held inside a gated underlying writer (so it holds
+// the helper's mutex) while further calls -- Write, Shut, Cancel -- are started
+// one after the other, each given a moment to reach the mutex; then the gate
+// opens. Every call start, call return and entry to / exit from the underlying
+// writer draws a ticket from one counter under one mutex; the ticketed event
+// order is all that is recorded and all that StreamWriters_Trace.tla judges
+// (never a duration: the settle delays only steer which interleaving is
+// visited, any interleaving is a legal observation).
+
+type raceEvent struct {
+	T   int    `json:"t"`   // ticket
+	E   string `json:"e"`   // w-call w-ret ds-enter ds-exit shut-call shut-ret cancel-call cancel-ret
+	Who string `json:"who"` // the call concerned
+	D   []int  `json:"d"`   // w-call: bytes given; ds-enter: bytes the underlying writer saw
+	N   int    `json:"n"`   // w-ret: returned count
+	Err string `json:"err"` // w-ret: error kind
+}
 
 type eventLog struct {
 	mu     sync.Mutex
-	events []string
+	events []raceEvent
 	notify map[string]chan struct{}
 }
 
 func newEventLog() *eventLog { return &eventLog{notify: map[string]chan struct{}{}} }
 
-func (l *eventLog) add(e string) {
+func (l *eventLog) add(ev raceEvent) {
 	l.mu.Lock()
-	l.events = append(l.events, e)
-	if ch, ok := l.notify[e]; ok {
+	ev.T = len(l.events) + 1
+	if ev.D == nil {
+		ev.D = []int{}
+	}
+	l.events = append(l.events, ev)
+	key := ev.E + ":" + ev.Who
+	if ch, ok := l.notify[key]; ok {
 		close(ch)
-		delete(l.notify, e)
+		delete(l.notify, key)
 	}
 	l.mu.Unlock()
 }
 
-// on returns a channel closed when event e is (or already was) logged.
-func (l *eventLog) on(e string) <-chan struct{} {
+// on returns a channel closed when event e of call who is (or already was) logged.
+func (l *eventLog) on(e, who string) <-chan struct{} {
 	l.mu.Lock()
 	defer l.mu.Unlock()
 	ch := make(chan struct{})
 	for _, x := range l.events {
-		if x == e {
+		if x.E == e && x.Who == who {
 			close(ch)
 			return ch
 		}
 	}
-	l.notify[e] = ch
+	l.notify[e+":"+who] = ch
 	return ch
 }
 
-func (l *eventLog) snapshot() []string {
+func (l *eventLog) snapshot() []raceEvent {
 	l.mu.Lock()
 	defer l.mu.Unlock()
-	return append([]string{}, l.events...)
+	return append([]raceEvent{}, l.events...)
 }
 
-// gateWriter blocks every Write until its gate opens and logs entry and exit.
+// gateWriter blocks every Write until its gate opens and logs entry and exit;
+// the call on whose behalf it is entered is recognised by the first byte.
 type gateWriter struct {
-	log  *eventLog
-	gate chan struct{}
+	log   *eventLog
+	gate  chan struct{}
+	owner map[byte]string
 }
 
 func (g *gateWriter) Write(p []byte) (int, error) {
-	g.log.add("ds-enter")
+	who := "?"
+	if len(p) > 0 {
+		if w, ok := g.owner[p[0]]; ok {
+			who = w
+		}
+	}
+	g.log.add(raceEvent{E: "ds-enter", Who: who, D: ints(p)})
 	<-g.gate
-	g.log.add("ds-exit")
+	g.log.add(raceEvent{E: "ds-exit", Who: who})
 	return len(p), nil
 }
 
@@ -368,77 +395,140 @@ func await(ch <-chan struct{}, d time.Duration) bool {
 	}
 }
 
+// raceCase: kind valve | concurrent | preempt. Valve / concurrent: Write A is
+// held, then the calls of Order ("W" a Write, "S" Shut) are started in that
+// order SettleMs apart, the gate opens SettleMs later, and when all have
+// returned one more Write follows. Preempt: one goroutine issues Interval+3
+// Writes in a row, the first is held, Cancel is called meanwhile.
 type raceCase struct {
-	Kind   string `json:"kind"`   // valve-shut | valve-write | concurrent-write
-	HoldMs int    `json:"holdms"` // how long the first write is held inside the downstream writer
+	Kind     string   `json:"kind"`
+	Order    []string `json:"order"`
+	Interval int      `json:"interval"`
+	SettleMs int      `json:"settlems"`
 }
 
-// execRace runs one schedule and emits the observed event order.
+// generous: expiry is itself reported (C47_ScheduleCompleted), so it must mean a real hang
+const raceTimeout = 4 * caseTimeout
+
 func execRace(c *vlib.Ctx, rc raceCase) {
+	if rc.Order == nil {
+		rc.Order = []string{}
+	}
 	log := newEventLog()
-	g := &gateWriter{log: log, gate: make(chan struct{})}
-	var w io.Writer
-	var valve *stream.ValveWriter
+	g := &gateWriter{log: log, gate: make(chan struct{}), owner: map[byte]string{}}
+	settle := time.Duration(rc.SettleMs) * time.Millisecond
+	complete := true
+	var wg sync.WaitGroup
+	// write issues one Write call `who` with its own recognisable bytes
+	nextByte := byte(10)
+	payload := func(who string) []byte {
+		p := []byte{nextByte, nextByte + 1, nextByte + 2}
+		g.owner[nextByte] = who
+		nextByte += 10
+		return p
+	}
+	write := func(w io.Writer, who string, p []byte) {
+		log.add(raceEvent{E: "w-call", Who: who, D: ints(p)})
+		n, err := w.Write(p)
+		log.add(raceEvent{E: "w-ret", Who: who, N: n, Err: streamErr(err)})
+	}
 	switch rc.Kind {
-	case "valve-shut", "valve-write":
-		valve = stream.NewValveWriter(g)
-		w = valve
-	case "concurrent-write":
-		w = stream.NewConcurrentWriter(g)
+	case "valve", "concurrent":
+		var w io.Writer
+		var valve *stream.ValveWriter
+		if rc.Kind == "valve" {
+			valve = stream.NewValveWriter(g)
+			w = valve
+		} else {
+			w = stream.NewConcurrentWriter(g)
+		}
+		// every payload is registered before any goroutine starts (the owner table is read concurrently)
+		pa, pz := payload("A"), payload("Z")
+		pf := make([][]byte, len(rc.Order))
+		for i := range rc.Order {
+			pf[i] = payload(string(rune('B' + i)))
+		}
+		held := log.on("ds-enter", "A")
+		wg.Add(1)
+		go func() { defer wg.Done(); write(w, "A", pa) }()
+		if !await(held, raceTimeout) {
+			complete = false
+		}
+		for i, o := range rc.Order {
+			who := string(rune('B' + i))
+			switch o {
+			case "S":
+				if valve == nil {
+					vlib.Fatal("race: Shut on a helper without Shut")
+				}
+				started := log.on("shut-call", "shut")
+				wg.Add(1)
+				go func() {
+					defer wg.Done()
+					log.add(raceEvent{E: "shut-call", Who: "shut"})
+					valve.Shut()
+					log.add(raceEvent{E: "shut-ret", Who: "shut"})
+				}()
+				await(started, raceTimeout)
+			default:
+				p := pf[i]
+				started := log.on("w-call", who)
+				wg.Add(1)
+				go func() { defer wg.Done(); write(w, who, p) }()
+				await(started, raceTimeout)
+			}
+			time.Sleep(settle) // let the call reach the mutex before the next one starts
+		}
+		close(g.gate)
+		finished := make(chan struct{})
+		go func() { wg.Wait(); close(finished) }()
+		if !await(finished, raceTimeout) {
+			complete = false
+		} else {
+			write(w, "Z", pz)
+		}
+	case "preempt":
+		cancel := make(chan struct{})
+		w := stream.NewPreemptableWriter(g, cancel, uint(rc.Interval))
+		total := rc.Interval + 3
+		payloads := make([][]byte, total)
+		for i := range payloads {
+			payloads[i] = payload(fmt.Sprintf("W%d", i+1))
+		}
+		held := log.on("ds-enter", "W1")
+		wg.Add(1)
+		go func() {
+			defer wg.Done()
+			for i, p := range payloads {
+				write(w, fmt.Sprintf("W%d", i+1), p)
+			}
+		}()
+		if !await(held, raceTimeout) {
+			complete = false
+		}
+		returned := log.on("cancel-ret", "cancel")
+		wg.Add(1)
+		go func() {
+			defer wg.Done()
+			log.add(raceEvent{E: "cancel-call", Who: "cancel"})
+			close(cancel)
+			log.add(raceEvent{E: "cancel-ret", Who: "cancel"})
+		}()
+		await(returned, raceTimeout)
+		time.Sleep(settle)
+		close(g.gate)
+		finished := make(chan struct{})
+		go func() { wg.Wait(); close(finished) }()
+		if !await(finished, raceTimeout) {
+			complete = false
+		}
 	default:
 		vlib.Fatal("race: unknown kind %q", rc.Kind)
 	}
-	var wg sync.WaitGroup
-	entered := log.on("ds-enter")
-	wg.Add(1)
-	go func() {
-		defer wg.Done()
-		log.add("w1-call")
-		w.Write([]byte{1, 2, 3})
-		log.add("w1-ret")
-	}()
-	// generous: expiry is itself reported (C47_ScheduleCompleted), so it must mean a real hang
-	const raceTimeout = 4 * caseTimeout
-	complete := true
-	if !await(entered, raceTimeout) {
-		complete = false
-	}
-	second := "w2-call"
-	if rc.Kind == "valve-shut" {
-		second = "shut-call"
-	}
-	called := log.on(second)
-	wg.Add(1)
-	go func() {
-		defer wg.Done()
-		if rc.Kind == "valve-shut" {
-			log.add("shut-call")
-			valve.Shut()
-			log.add("shut-ret")
-		} else {
-			log.add("w2-call")
-			w.Write([]byte{4, 5})
-			log.add("w2-ret")
-		}
-	}()
-	await(called, raceTimeout)
-	time.Sleep(time.Duration(rc.HoldMs) * time.Millisecond)
-	close(g.gate)
-	finished := make(chan struct{})
-	go func() { wg.Wait(); close(finished) }()
-	if !await(finished, raceTimeout) {
-		complete = false
-	}
-	if rc.Kind == "valve-shut" && complete {
-		log.add("w3-call")
-		w.Write([]byte{6})
-		log.add("w3-ret")
-	}
-	events := log.snapshot()
-	c.Emit(map[string]any{"ev": "Race", "in": rc, "events": events, "complete": complete})
+	c.Emit(map[string]any{"ev": "Race", "in": rc, "events": log.snapshot(), "complete": complete})
 	c.Eval()
 	c.TraceDone()
-	c.NonTrivial(fmt.Sprintf("race-%s-%d", rc.Kind, rc.HoldMs))
+	c.NonTrivial(rc)
 }
 
 // ---------------------------------------------------------------------------
@@ -527,13 +617,26 @@ func runStream(c *vlib.Ctx) error {
 		execStream(c, randStreamCase(c.Rand, 1+c.Rand.Intn(oplen)))
 	}
 	races := 0
-	reps := 2
+	settles := []int{15, 40}
 	if c.Thorough() {
-		reps = 10
+		settles = []int{5, 15, 40, 80, 150}
 	}
-	for i := 0; i < reps; i++ {
-		for _, k := range []string{"valve-shut", "valve-write", "concurrent-write"} {
-			execRace(c, raceCase{Kind: k, HoldMs: 20 + 15*i})
+	for _, ms := range settles {
+		for _, rc := range []raceCase{
+			{Kind: "valve", Order: []string{"S"}},
+			{Kind: "valve", Order: []string{"W"}},
+			{Kind: "valve", Order: []string{"S", "W"}}, // A held, Shut queued, then a Write queued behind it
+			{Kind: "valve", Order: []string{"W", "S"}},
+			{Kind: "valve", Order: []string{"W", "W"}},
+			{Kind: "valve", Order: []string{"S", "W", "W"}},
+			{Kind: "concurrent", Order: []string{"W"}},
+			{Kind: "concurrent", Order: []string{"W", "W"}},
+			{Kind: "preempt", Interval: 0},
+			{Kind: "preempt", Interval: 1},
+			{Kind: "preempt", Interval: 2},
+		} {
+			rc.SettleMs = ms
+			execRace(c, rc)
 			races++
 		}
 	}
